@@ -351,10 +351,16 @@ def X_execute_task_tail(ctx):
                 and has_call(e.d['term'][1], '~Mutex') and mentions_field(e.d['term'][1], 'tx_results')]
         has_prev = any(e.d['outcome'] == 'Some' for e in prev)
         # contains(prev.write_set, loc-of-new-write-set) atoms
-        cont = [e for e in p.events if e.kind == 'atom' and e.d['term'][0] == 'call'
-                and callee_matches(e.d['term'][1], '::contains')
-                and mentions_field(e.d['term'][2][0], 'TransactionResult.write_set')
-                and mentions_field(e.d['term'][2][1], 'IncarnationAccesses.write_set')]
+        # membership of a newly written location in the previous write set, whichever way the boolean is consumed
+        class _A:
+            def __init__(self, t, v):
+                self.d = {'term': t, 'outcome': 'true' if v else 'false'}
+        cont = []
+        for e in p.events:
+            bf_ = bool_fact(e)
+            if bf_ and bf_[0][0] == 'call' and callee_matches(bf_[0][1], '::contains') and len(bf_[0][2]) == 2 \
+                    and mentions_field(bf_[0][2][0], 'TransactionResult.write_set') and mentions_field(bf_[0][2][1], 'IncarnationAccesses.write_set'):
+                cont.append(_A(bf_[0], bf_[1]))
         it_new = [e for e in p.events if e.kind == 'atom' and e.d['term'][0] == 'discr' and e.d['term'][1][0] == 'call' and e.d['term'][1][1].endswith('::next')
                   and mentions_field(e.d['term'][1], 'IncarnationAccesses.write_set') and not mentions_field(e.d['term'][1], 'TransactionResult.write_set')]
         empty_new = bool(it_new) and it_new[0].d['outcome'] == 'None'
